@@ -44,6 +44,33 @@ Proof.
   split; [intro H; discriminate H|]. split; reflexivity.
 Qed.
 
+(* join_frame needs a positional outer optic.  type KP struct { X, Y int8 }; type KO struct { P KP }: the outer optic is
+   the field P seen through a conversion that swaps its two bytes, the inner optic the field X (byte 0 of the value).
+   The framed statement of join_frame with offset 0 would be "only byte 0 of the arena changes"; byte 1 does. *)
+Definition KP := golayout (TStruct "main.KP" 0 [fld "X" t_int8; fld "Y" t_int8]).
+Definition KO := golayout (TStruct "main.KO" 0 [fld "P" KP]).
+
+Definition swap_join : res optic :=
+  a <- ForProduct1 KO KP [] ;; b <- ForProduct1 KP t_int8 ["X"%string] ;; Ok (Join (BiMap a (@rev byte) (@rev byte)) b).
+
+Lemma join_frame_needs_positional : exists a b,
+  swap_join = Ok (Join (BiMap a (@rev byte) (@rev byte)) b) /\
+  lawful (BiMap a (@rev byte) (@rev byte)) 2 /\ framed (BiMap a (@rev byte) (@rev byte)) 2 [(0, 2)] /\
+  framed b 1 [(0, 1)] /\
+  ~ framed (Join (BiMap a (@rev byte) (@rev byte)) b) 1 (shift 0 [(0, 1)]).
+Proof.
+  eexists. eexists. split; [vm_compute; reflexivity|]. split; [|split; [|split]].
+  - apply bimap_lawful with (nA := 2); [exact (field_lawful _)| |]; intros v Hv;
+      (split; [apply rev_involutive|rewrite rev_length; exact Hv]).
+  - apply bimap_framed with (nA := 2); [intros v Hv; rewrite rev_length; exact Hv|exact (field_framed _)].
+  - exact (field_framed _).
+  - intro F. specialize (F [1; 2]%Z 0 [7%Z] [1; 7]%Z eq_refl).
+    match type of F with ?P -> _ => assert (E : P) by (vm_compute; reflexivity) end.
+    specialize (F E 1).
+    assert (O : outside (shift 0 [(0, 1)]) 0 1) by (intros r [Hr|[]]; subst r; right; cbn; apply le_n).
+    specialize (F O). cbn in F. discriminate F.
+Qed.
+
 (* ---- the hypotheses of the full theorems are satisfiable (non-vacuity) ---------------------------------------- *)
 (* a morphism over KAB with two different isos (A -> B, B -> A), nil entries and a repeated entry *)
 Definition r_seq : list (option iso) :=
